@@ -177,7 +177,8 @@ def values(prog, rep):
 
     def value_test(t, sub):
         # a test of the SHAPE of given (how many conditioning values there are) is not a test of its values
-        if t[0] == "call" and t[1] in _SHAPE and len(t[2]) == 1 and t[2][0] == sub:
+        # (nor is a test of the shape of something computed from it: np.ndim(parameter value) says whether that parameter varies with given)
+        if t[0] == "call" and t[1] in _SHAPE and len(t[2]) == 1:
             return False
         if t == sub:
             return True
